@@ -157,7 +157,13 @@ class LazyData(dict):
         if key not in cache:
             cache[key] = sym_raw_column(self.prefix, name, self.n, nprev=self.nprev)
         dict.__setitem__(self, name, cache[key])
-        return cache[key]
+        return cache[key].copy()
+
+    def __getitem__(self, name):
+        # every access is a fresh read from "disk": code that scales a raw column in place must not
+        # leak into the next field or the next load
+        v = dict.__getitem__(self, name) if dict.__contains__(self, name) else self.__missing__(name)
+        return v.copy() if isinstance(v, real_np.ndarray) else v
 
     def __contains__(self, name):
         try:
@@ -181,11 +187,12 @@ class EulerStub:
     def __call__(self, codes):
         c = ctx()
         memo = c.extra.setdefault('euler', {})
-        info = arrays.root_info(codes, create=False)
-        key = info.name if info else id(codes)
+        # keyed by the code values themselves (each load reads a fresh copy of the raw column)
+        key = tuple(core.lift(x).e.get_id() for x in common.cells(codes))
         if key not in memo:
             n = len(codes)
-            memo[key] = tuple(common.sym_array(f'{key}.{w}', (n, 3), 'f8') for w in ('minor', 'middle', 'major'))
+            tag = f'euler{len(memo)}'
+            memo[key] = tuple(common.sym_array(f'{tag}.{w}', (n, 3), 'f8') for w in ('minor', 'middle', 'major'))
         return memo[key]
 
 
